@@ -45,6 +45,18 @@ POOL = [
     "\n\n\nint deep_line;\nint \"unterminated;\n",
     "extern \"C\" {\n int c1;\n}\nint c2;\n",
     "int q = 08;\n",
+    # rarely taken paths that build their result by changing an object in place (template declarations extended by abbreviated
+    # `auto` parameters, requires-clauses, cv-qualifiers set on a type after a class body), next to plain uses of the same construct
+    "template <> struct Tr<int> { int v; };\ntemplate <> void plain<int>(int);\n",
+    "template <> void W<int>::put(auto v) {}\ntemplate <> struct Tr2<char> { };\n",
+    "template <> std::integral auto twice<int>(int);\ntemplate <> int once<int>(int);\n",
+    "template <> template <> void A<int>::B<char>::f(auto);\ntemplate <> template <> struct A<int>::C<char>;\n",
+    "template <typename T> requires C<T> void r(T);\ntemplate <> struct Z<char>;\ntemplate <typename T> void s(T) requires D<T>;\n",
+    "struct CV { int x; } const cv1 = {}, *cv2, cv3[2];\ntypedef struct { int y; } volatile V1, *V2;\nstruct CV2 { } cv4;\n",
+    "template <typename T> concept K = true;\ntemplate <K T> void k(T);\nvoid k2(K auto x, auto y);\ntemplate <typename T> Dg(T) -> Dg<T>;\n",
+    "auto tr() -> int;\nauto tr2(auto a) -> decltype(a);\nstruct O { operator int() const; explicit operator bool(); O& operator=(const O&) = default; };\n",
+    "using enum E;\nnamespace al = a::b;\ninline namespace v1 { }\nnamespace a::b::c { }\nextern template class X<int>;\ntemplate class Y<char>;\n",
+    "struct F { friend class G; friend void h(); template <typename T> friend struct I; };\n[[nodiscard]] int attr();\nalignas(8) int al;\n",
 ]
 
 
